@@ -139,7 +139,7 @@ func c20Run(r *core.Run) {
 				break
 			}
 			if d := at - w.Since(); d > 0 {
-				time.Sleep(d)
+				w.Sleep(d)
 			}
 			req := httptest.NewRequest("GET", "/health", nil)
 			req.RemoteAddr = "192.0.2.7:40000"
@@ -148,14 +148,14 @@ func c20Run(r *core.Run) {
 			samples = append(samples, c20Sample{At: w.Since(), Status: rec.Code})
 		}
 		if d := closeAt - w.Since(); d > 0 {
-			time.Sleep(d)
+			w.Sleep(d)
 		}
 		closedAt = w.Since()
 		w.Logf("server.Close()")
 		srv.Close()
 		// let plenty of virtual time pass: a checker that is still alive
 		// would run further rounds
-		time.Sleep(5*interval + 2*timeout)
+		w.Sleep(5*interval + 2*timeout)
 	})
 	if newErr != nil {
 		r.Notes["internal_error"] = "server.New failed: " + newErr.Error()
